@@ -48,6 +48,7 @@ func checkC17(r *Run) {
 	r.Rule("C17.R5.populate", "OpenTable starts every index's populate (which takes the index lock) before attaching the change observer", 1)
 	r.Rule("C17.ERR", "no error returned by a call is discarded in x/gorp except the tabled sites (a swallowed row or index error desynchronises table and index)", 1)
 	r.Rule("C17.R8.fresh", "every value gorp decodes a stored or observed entry into is fresh for that entry (declared inside the per-entry loop, never a longer-lived field): the codecs merge into their target, so an entry with an empty indexed field would inherit the previous entry's value and land in the wrong index bucket", 3)
+	r.Rule("C17.R9.append", "no append in x/gorp extends a slice held in a field of a shared object (table key prefix, builder state) unless the result is stored back into that field: otherwise concurrent scans write their key prefixes into one backing array and read each other's rows", 1)
 	r.Rule("C17.R7.alias", "no exported method of LookupIndex / SortedIndex returns a slice that aliases lock-guarded index storage (forward buckets, entries): what leaves the lock is a copy, because a concurrent set/delete shifts the bucket in place", 2)
 	r.Rule("C17.R6.delta", "delta.stageSet/stageDelete store d.state[key] on every path; attachIndexObserver applies set/delete inside the single loop over the change batch", 3)
 
@@ -57,6 +58,7 @@ func checkC17(r *Run) {
 	checkTxHooks(r, p)
 	checkIndexGuards(r, p)
 	checkIndexAliasEscape(r, p)
+	checkAppendAliasing(r, p, "C17.R9.append", func(fn *FuncNode) bool { return fn.InPkgs(gorpPkg) })
 	checkFreshDecodeTargets(r, p, "C17.R8.fresh", func(fn *FuncNode) bool { return fn.InPkgs(gorpPkg) }, 3)
 	checkErrDrop(r, p, "C17.ERR", func(fn *FuncNode) bool { return fn.InPkgs(gorpPkg) }, 150)
 	checkDeltaAndObserver(r, p)
